@@ -568,6 +568,17 @@ def rule_r15(ctx):
                                 isinstance(y, ast.Name) and y.id in _loop_vars_over(f, p_) for y in ast.walk(q.test)):
                             checked = True
                     q = getattr(q, "_parent", None)
+            # when the parameter is materialised under another name (`devices = tuple(p)`) and that copy is what is recorded, the
+            # check has to walk the copy: the parameter itself may be an iterator that the copy has already used up
+            copies = [a.targets[0].id for a in own_nodes(f.node) if isinstance(a, ast.Assign) and len(a.targets) == 1 and isinstance(a.targets[0], ast.Name)
+                      and a.targets[0].id != p_ and isinstance(a.value, ast.Call) and dotted_of(a.value.func) in ("tuple", "list", "sorted", "frozenset", "set")
+                      and len(a.value.args) == 1 and isinstance(a.value.args[0], ast.Name) and a.value.args[0].id == p_]
+            if checked and copies and any(isinstance(y, ast.Name) and y.id in copies for c in ctors for y in ast.walk(c)):
+                raw_loops = [lp for lp in own_nodes(f.node) if isinstance(lp, (ast.For, ast.comprehension)) and isinstance(lp.iter, ast.Name) and lp.iter.id == p_]
+                copy_loops = [lp for lp in own_nodes(f.node) if isinstance(lp, ast.For) and isinstance(lp.iter, ast.Name) and lp.iter.id in copies
+                              and any(isinstance(r, ast.Raise) for r in ast.walk(lp))]
+                if any(any(isinstance(r, ast.Raise) for r in ast.walk(lp)) for lp in raw_loops if isinstance(lp, ast.For)) and not copy_loops:
+                    checked = False
             ctx.check("R15", f"{f.local}: `{p_}` is checked before it is recorded", checked, f, f.node,
                       f"`{p_}` reaches the annotation that {f.local} records ({', '.join(sorted({(dotted_of(c.func) or '').split('.')[-1] for c in ctors}))}) and no test that governs a `raise` "
                       f"reads it: a request with a value the library's own device-configuration check rejects (a device index outside range(num_devices)) is accepted and recorded - the "
